@@ -65,8 +65,12 @@ func feeParamsOf(d *Dump) feemarkettypes.Params {
 func checkInit(r *RunCtx, c *Chain) {
 	if c.InitPanic != nil {
 		r.Violate("C20", "abci_panic", map[string]string{"phase": "InitChain", "site": panicSite(c.InitPanic)}, "InitChain panicked on a valid genesis: %s", c.InitPanic.Value)
+		// the harness's genesis has the form of an exported state (accounts, contracts with code and storage, module
+		// parameters): a node that cannot be initialised from it cannot import an export either
+		r.Violate("C18", "import_failed", map[string]string{"why": errClass(c.InitPanic.Value), "stage": "genesis"}, "InitChain from a genesis with contracts, storage and module parameters panicked: %s", clip(c.InitPanic.Value))
 	} else if c.InitErr != nil {
 		r.Violate("C20", "abci_error", map[string]string{"phase": "InitChain"}, "InitChain failed on a valid genesis: %v", c.InitErr)
+		r.Violate("C18", "import_failed", map[string]string{"why": errClass(c.InitErr.Error()), "stage": "genesis"}, "InitChain from a genesis with contracts, storage and module parameters failed: %v", c.InitErr)
 	}
 }
 
